@@ -1399,3 +1399,288 @@ Proof.
   intros Hk. unfold load_deps_gen. rewrite take_short; [reflexivity|].
   rewrite firstn_length. lia.
 Qed.
+
+(* ------------------------------------------------------------------------------------ *)
+(* C09_torn for files written by the real writer                                        *)
+
+Theorem C09_torn_partial_thm ops :
+  wf_ops ops ->
+  forall k, (k <= length (apply_ops [] ops))%nat ->
+  ((k < 16)%nat -> load_deps (firstn k (apply_ops [] ops)) = DBadHeader) /\
+  ((16 <= k)%nat ->
+   exists off s1 nr1,
+     (16 <= off <= k)%nat /\
+     clean true (firstn off (apply_ops [] ops)) s1 /\
+     (forall j s', (off < j <= k)%nat -> ~ clean true (firstn j (apply_ops [] ops)) s') /\
+     load_deps (firstn k (apply_ops [] ops)) =
+       (if (k - off <? 4)%nat then DOk s1 None nr1 else DOk s1 (Some off) false)).
+Proof.
+  intros Hwf k Hk. split.
+  - intros Hlt. apply torn_header. exact Hlt.
+  - intros Hge. destruct (apply_ops_clean ops Hwf) as (s & Cl & _).
+    apply (torn_clean true _ s Cl k). lia.
+Qed.
+
+(* The statement one would like: every cut that is not on a record boundary is truncated
+   back to the last record boundary. *)
+Definition C09_torn_full : Prop :=
+  forall ops, wf_ops ops ->
+  forall k, (16 <= k <= length (apply_ops [] ops))%nat ->
+  exists off s1 nr1,
+    (16 <= off <= k)%nat /\
+    clean true (firstn off (apply_ops [] ops)) s1 /\
+    load_deps (firstn k (apply_ops [] ops)) =
+      DOk s1 (if (k =? off)%nat then None else Some off) nr1.
+
+(* Witness: one RecordDeps("a", mtime 1, no inputs): 16 header bytes, a 12-byte path record,
+   a 16-byte deps record.  Cut at 30 = 2 bytes into the deps record's size word. *)
+Definition torn_ops : list dop := [RecordDeps [97] 1 []].
+Definition torn_file : bytes := apply_ops [] torn_ops.
+
+Example torn_file_bytes :
+  torn_file = deps_header
+              ++ [8; 0; 0; 0; 97; 0; 0; 0; 255; 255; 255; 255]
+              ++ [12; 0; 0; 128; 0; 0; 0; 0; 1; 0; 0; 0; 0; 0; 0; 0].
+Proof. vm_compute. reflexivity. Qed.
+
+Lemma wf_torn_ops : wf_ops torn_ops.
+Proof. split; [vm_compute; reflexivity|]. vm_compute. reflexivity. Qed.
+
+Example torn_cut_30 :
+  load_deps (firstn 30 torn_file) = DOk (mkD [[97]] []) None false.
+Proof. vm_compute. reflexivity. Qed.
+
+Theorem C09_torn_refuted_thm : ~ C09_torn_full.
+Proof.
+  intros H.
+  destruct (H torn_ops wf_torn_ops 30%nat) as (off & s1 & nr1 & Hoff & Hcl & Hl).
+  { fold torn_file. replace (length torn_file) with 44%nat by (vm_compute; reflexivity). lia. }
+  fold torn_file in Hcl, Hl. rewrite torn_cut_30 in Hl.
+  destruct (Nat.eqb_spec 30 off) as [<-|Hne]; [|discriminate].
+  destruct Hcl as (x & st & Hx & Hr & _).
+  assert (Hf : firstn 30 torn_file
+               = deps_header ++ [8; 0; 0; 0; 97; 0; 0; 0; 255; 255; 255; 255; 12; 0])
+    by (vm_compute; reflexivity).
+  rewrite Hf in Hx. apply app_inv_head in Hx. subst x.
+  destruct (runs_inv_nonempty _ _ _ _ Hr ltac:(discriminate)) as (st1 & y & Hs & Hr1).
+  vm_compute in Hs. inversion Hs; subst st1 y. clear Hs.
+  refine (runs_stuck true _ _ _ _ _ Hr1); [vm_compute; reflexivity|discriminate].
+Qed.
+
+(* The consequence.  What one would like: whatever prefix of the log reached the disk, what the
+   NEXT session records is seen by the load after it. *)
+Definition C09_torn_next_session_full : Prop :=
+  forall ops ops2 k, wf_ops (ops ++ ops2) -> (k <= length (apply_ops [] ops))%nat ->
+  forall o x, abstract_ops ops2 o = Some x ->
+  exists s tr nr,
+    load_deps (apply_ops (firstn k (apply_ops [] ops)) ops2) = DOk s tr nr /\
+    view s o = spec_view (Some x).
+
+Definition torn_ops2 : list dop := [RecordDeps [98] 2 []].
+
+(* after the cut at 30, the next session appends behind the two stray bytes 0c 00 ... *)
+Example torn_next_file :
+  apply_ops (firstn 30 torn_file) torn_ops2 =
+  deps_header ++ [8; 0; 0; 0; 97; 0; 0; 0; 255; 255; 255; 255] ++ [12; 0]
+  ++ [8; 0; 0; 0; 98; 0; 0; 0; 254; 255; 255; 255]
+  ++ [12; 0; 0; 128; 1; 0; 0; 0; 2; 0; 0; 0; 0; 0; 0; 0].
+Proof. vm_compute. reflexivity. Qed.
+
+(* ... and the following load reads the size word 0c 00 08 00 = 0x0008000c > kMaxRecordSize,
+   fails, and truncates the file to 28 bytes: everything that session recorded is gone. *)
+Example torn_next_load :
+  load_deps (apply_ops (firstn 30 torn_file) torn_ops2) = DOk (mkD [[97]] []) (Some 28%nat) false.
+Proof. vm_compute. reflexivity. Qed.
+
+Theorem C09_torn_next_session_lost_refuted_thm : ~ C09_torn_next_session_full.
+Proof.
+  intros H.
+  destruct (H torn_ops torn_ops2 30%nat) with (o := [98]) (x := (2%Z, @nil bytes))
+    as (s & tr & nr & Hl & Hv).
+  - split; [vm_compute; reflexivity|]. vm_compute. reflexivity.
+  - fold torn_file. replace (length torn_file) with 44%nat by (vm_compute; reflexivity). lia.
+  - reflexivity.
+  - fold torn_file in Hl. rewrite torn_next_load in Hl. inversion Hl; subst s tr nr.
+    vm_compute in Hv. discriminate.
+Qed.
+
+(* ==================================================================================== *)
+(* 11. Garbage after a valid log                                                        *)
+
+Theorem C09_garbage_tail_thm strict f s g :
+  clean strict f s ->
+  match load_deps_gen strict (f ++ g) with
+  | DUnsafe _ => True
+  | DOk s' tr nr =>
+      extends s s' /\
+      match tr with
+      | Some off =>
+          (* read_failed: truncated exactly in front of the first malformed record; what is
+             left is a clean file whose records (all of [f]'s and the well-formed ones of
+             [g]) make up s' *)
+          (length f <= off <= length (f ++ g))%nat /\ clean strict (firstn off (f ++ g)) s'
+      | None =>
+          (* end of file reached: whole records plus at most 3 stray bytes *)
+          exists f' stray, f ++ g = f' ++ stray /\ (length stray < 4)%nat /\
+                           (length f <= length f')%nat /\ clean strict f' s'
+      end
+  | DBadHeader | DFuel => False
+  end.
+Proof.
+  intros (x & st & -> & Hr & Hs).
+  destruct (runs_anatomy _ _ _ _ _ Hr) as (c & Hc & Hoff & _ & Hx).
+  rewrite app_nil_r in Hc. subst c.
+  destruct (runs_total strict (length g) g st (le_n _)) as (st' & y & Hr2 & Hn).
+  destruct (runs_anatomy _ _ _ _ _ Hr2) as (c & -> & Hoff2 & Hext & Hx2).
+  assert (Hrun : runs strict l_init (x ++ c ++ y) st' y).
+  { eapply runs_trans; [apply Hx|exact Hr2]. }
+  rewrite <- app_assoc, (load_deps_runs _ _ _ _ Hrun Hn).
+  assert (Hcl : clean strict (deps_header ++ x ++ c) (l_s st')).
+  { exists (x ++ c), st'. split; [reflexivity|]. split; [|reflexivity].
+    eapply runs_trans; [apply Hx|]. specialize (Hx2 []). rewrite app_nil_r in Hx2. exact Hx2. }
+  assert (Hlen : N.to_nat (l_off st') = length (deps_header ++ x ++ c)).
+  { change (l_off l_init) with 16 in Hoff. unfold nlen in *.
+    rewrite !app_length. change (length deps_header) with 16%nat. lia. }
+  assert (Hcut : firstn (N.to_nat (l_off st')) (deps_header ++ x ++ c ++ y) = deps_header ++ x ++ c).
+  { rewrite Hlen.
+    replace (deps_header ++ x ++ c ++ y) with ((deps_header ++ x ++ c) ++ y)
+      by (rewrite <- !app_assoc; reflexivity).
+    rewrite firstn_app, Nat.sub_diag, firstn_all. cbn [firstn]. apply app_nil_r. }
+  assert (Hbounds : (length (deps_header ++ x) <= N.to_nat (l_off st')
+                     <= length (deps_header ++ x ++ c ++ y))%nat).
+  { rewrite Hlen, !app_length. lia. }
+  subst s. unfold final.
+  destruct (frame y) as [| |d size buf rest] eqn:Ef.
+  - split; [exact Hext|].
+    exists (deps_header ++ x ++ c), y.
+    split; [rewrite <- !app_assoc; reflexivity|].
+    split.
+    { unfold frame in Ef. destruct y as [|b0 [|b1 [|b2 [|b3 y']]]]; cbn [length]; try lia.
+      cbn [rd32] in Ef.
+      destruct ((kMaxRecordSize <? _) || _); [discriminate|].
+      destruct (take _ _) as [[? ?]|]; discriminate. }
+    split; [rewrite !app_length; lia|exact Hcl].
+  - split; [exact Hext|]. split; [exact Hbounds|]. rewrite Hcut. exact Hcl.
+  - destruct (decode strict (d_paths (l_s st')) d size buf) eqn:Ed.
+    + split; [exact Hext|]. split; [exact Hbounds|]. rewrite Hcut. exact Hcl.
+    + exact I.
+    + unfold step in Hn. rewrite Ef, Ed in Hn. discriminate.
+    + unfold step in Hn. rewrite Ef, Ed in Hn. discriminate.
+Qed.
+
+(* ==================================================================================== *)
+(* 12. C13: where DepsLog::Load has undefined behaviour, and where it has none          *)
+
+Definition w32 (ws : list N) : bytes := flat_map le32 ws.
+
+(* One minimal file per class (each is: header + one record). *)
+Definition unsafe1 : bytes := deps_header ++ w32 [2147483652; 0].                (* 04 00 00 80 | out *)
+Definition unsafe2 : bytes := deps_header ++ w32 [2147483664; 0; 0; 0; 4294967295]. (* dep id -1 *)
+Definition unsafe3 : bytes := deps_header ++ w32 [2147483660; 2147483648; 0; 0].  (* out id INT_MIN *)
+Definition unsafe4 : bytes := deps_header ++ w32 [2147483660; 2147483647; 0; 0].  (* out id INT_MAX *)
+Definition unsafe5 : bytes := deps_header ++ w32 [5] ++ [0] ++ w32 [4294967295].  (* path "\0" *)
+Definition unsafe6 : bytes := deps_header ++ w32 [5] ++ [120] ++ w32 [4294967295]. (* path "x", size 5 *)
+(* accepted by Load, crashes Recompact: deps record for out id 0 while nodes_ is empty *)
+Definition unsafe_recompact : bytes := deps_header ++ w32 [2147483660; 0; 0; 0].
+
+Theorem C13_depslog_bounds_refuted_thm :
+  load_deps unsafe1 = DUnsafe 1 /\ load_deps unsafe2 = DUnsafe 2 /\
+  load_deps unsafe3 = DUnsafe 3 /\ load_deps unsafe4 = DUnsafe 4 /\
+  load_deps unsafe5 = DUnsafe 5 /\ load_deps unsafe6 = DUnsafe 6 /\
+  load_deps_x86 unsafe5 = DUnsafe 5 /\
+  (exists s, load_deps unsafe_recompact = DOk s None false /\
+             forall live, recompact_r live s = CUnsafe 1).
+Proof.
+  repeat split; try (vm_compute; reflexivity).
+  exists (mkD [] [(0, (0%Z, []))]). split; [vm_compute; reflexivity|].
+  intros live. reflexivity.
+Qed.
+
+Lemma check_ids_safe n ins :
+  forallb (fun i => i <? two31) ins = true -> check_ids n ins <> IdsUnsafe.
+Proof.
+  induction ins as [|i r IH]; cbn [forallb check_ids]; [discriminate|].
+  intros H. apply andb_true_iff in H. destruct H as [Hi Hr].
+  replace (two31 <=? i) with false by lia.
+  destruct (n <=? i); [discriminate|]. apply IH. exact Hr.
+Qed.
+
+Lemma strip3_some (r : bytes) : (3 <= length r)%nat -> strip3 r <> None.
+Proof.
+  destruct r as [|a [|b [|c r]]]; cbn [length]; try lia. intros _.
+  unfold strip3, strip_step.
+  destruct (a =? 0); [|destruct (a =? 0); discriminate].
+  destruct (b =? 0); [|destruct (b =? 0); discriminate].
+  destruct (c =? 0); discriminate.
+Qed.
+
+Lemma decode_safe strict paths d size buf :
+  length buf = N.to_nat size ->
+  record_safe strict (d, size, buf) = true ->
+  forall w, decode strict paths d size buf <> RUnsafe w.
+Proof.
+  intros Hlen Hs w. unfold record_safe in Hs. unfold decode. destruct d.
+  - destruct (size mod 4 =? 0); cbn [negb]; [|discriminate].
+    destruct (words_of buf) as [|out [|lo [|hi ins]]]; try discriminate.
+    apply andb_true_iff in Hs. destruct Hs as [Ho Hi].
+    pose proof (check_ids_safe (nlen paths) ins Hi) as Hc.
+    destruct (check_ids (nlen paths) ins); try discriminate; [|congruence].
+    replace (two31 <=? out) with false by (unfold two31 in *; lia).
+    replace (out =? two31 - 1) with false by (unfold two31 in *; lia). discriminate.
+  - rewrite frev_rev.
+    destruct (rev buf) as [|c3 [|c2 [|c1 [|c0 rp]]]] eqn:Er; try discriminate.
+    destruct rp as [|r0 rp']; [discriminate|].
+    assert (Hl : length buf = (5 + length rp')%nat).
+    { rewrite <- (rev_length buf), Er. reflexivity. }
+    assert (Hst : strip3 (r0 :: rp') <> None).
+    { destruct strict.
+      - apply strip3_some. cbn [length]. lia.
+      - destruct rp' as [|r1 [|r2 rp'']]; [| |apply strip3_some; cbn [length]; lia].
+        + (* path part of 1 byte *)
+          assert (Hb : buf = [r0; c0; c1; c2; c3]).
+          { rewrite <- (rev_involutive buf), Er. reflexivity. }
+          subst buf. cbn [short_all_nul] in Hs. unfold strip3, strip_step.
+          destruct (r0 =? 0); [discriminate|discriminate].
+        + (* path part of 2 bytes *)
+          assert (Hb : buf = [r1; r0; c0; c1; c2; c3]).
+          { rewrite <- (rev_involutive buf), Er. reflexivity. }
+          subst buf. cbn [short_all_nul] in Hs. unfold strip3, strip_step.
+          destruct (r0 =? 0); [|destruct (r0 =? 0); discriminate].
+          destruct (r1 =? 0); [discriminate|]. destruct (r1 =? 0); discriminate. }
+    destruct (strip3 (r0 :: rp')) as [rp2|]; [|congruence].
+    destruct strict.
+    + rewrite Hs. cbn [negb andb].
+      destruct (negb _ || _); discriminate.
+    + cbn [andb]. destruct (negb _ || _); discriminate.
+Qed.
+
+Lemma load_loop_safe strict : forall fuel st x,
+  forallb (record_safe strict) (frames_of fuel x) = true ->
+  forall w, load_loop strict fuel st x <> DUnsafe w.
+Proof.
+  induction fuel as [|fuel IH]; intros st x Hs w; [discriminate|].
+  cbn [load_loop]. cbn [frames_of] in Hs.
+  destruct (frame x) as [| |d size buf rest] eqn:Ef; try discriminate.
+  destruct (frame_rec _ _ _ _ _ Ef) as (hd & _ & _ & Hbuf & _).
+  cbn [forallb] in Hs. apply andb_true_iff in Hs. destruct Hs as [Hs1 Hs2].
+  pose proof (decode_safe strict (d_paths (l_s st)) d size buf Hbuf Hs1) as Hd.
+  destruct (decode strict (d_paths (l_s st)) d size buf); try discriminate.
+  - exfalso. exact (Hd _ eq_refl).
+  - apply IH. exact Hs2.
+  - apply IH. exact Hs2.
+Qed.
+
+(* On every file whose framed records avoid the listed classes the loader has no undefined
+   behaviour (and it always terminates: load_deps_never_fuel). *)
+Theorem C13_depslog_bounds_partial_thm strict f :
+  safe_file strict f = true -> forall w, load_deps_gen strict f <> DUnsafe w.
+Proof.
+  unfold safe_file, load_deps_gen. destruct (take 16 f) as [[h x]|]; [|discriminate].
+  intros Hs w. destruct (bytes_eqb h deps_header); [|discriminate].
+  apply load_loop_safe. exact Hs.
+Qed.
+
+(* Files written by ninja itself are safe in that sense (consequence of the round trip; shown
+   here for the example used in the non-vacuity checks). *)
+Example safe_file_example : safe_file true torn_file = true.
+Proof. vm_compute. reflexivity. Qed.
